@@ -85,11 +85,11 @@ class Ctx:
         self.findings.append(fd)
         return fd
 
-    def check(self, rule, instance, ok, func, construct, message, node=None, witness=None, detail=""):
+    def check(self, rule, instance, ok, func, construct, message, node=None, witness=None, detail="", file=None):
         """obligation + finding when it fails."""
         self.ob(rule, instance, ok, detail or ("" if ok else message))
         if not ok:
-            self.finding(rule, func, construct, message, node=node, witness=witness)
+            self.finding(rule, func, construct, message, node=node, witness=witness, file=file)
         return ok
 
     def count(self, name, n=1):
